@@ -79,6 +79,15 @@ FROB_RTOL = 1e-9        # ||m - l r||_F^2 vs discarded weight, relative to ||m||
 EIGH_TOL = 1e-9         # eigh contract validation, relative to the largest eigenvalue
 QR_TOL = 1e-9           # qr contract validation: ||q^H q - 1||_max, ||q r - m||_max / max(1, ||m||_max) (clean-tree spread ~1e-15)
 MACHINE_TOL = 1e-10     # tensor-level machine vs real factors, entrywise relative to max(1, |entry|max) (spread ~1e-14)
+EIGH_LIMIT = 1536       # largest Gram matrix a history may hand to eigh (clean tree: <= 3 * 3 * 64 = 576); beyond it the
+                        # history is stopped (`Blowup`): a LAPACK call of that size cannot be interrupted by SIGALRM
+CASE_BUDGET_S = 20.0    # wall-clock budget of one history (clean tree: < 0.5 s); checked between operations
+DRIVER_TIMEOUT_S = 600  # every driver call (clean tree: < 10 s)
+
+
+class Blowup(Exception):
+    """raised by the harness' own kernel wrappers when a tensor outgrows every size the clean tree can produce
+    (an uncapped bond grows geometrically under `apply_to` / `+`); turned into a failing input, never a verdict by itself"""
 
 
 def _defer(rep, batch, lines, judge):
@@ -103,7 +112,7 @@ class Batch:
 
     def flush(self, rep: Report) -> None:
         try:
-            mo = Driver().batch(self.lines)
+            mo = Driver().batch(self.lines, timeout=DRIVER_TIMEOUT_S)
         except LeanError as e:
             rep.broke("driver: " + str(e)[-800:])
             return
@@ -326,6 +335,30 @@ def gen_split_case(rng):
                 seed=None)
 
 
+def gen_rect_split_case(rng):
+    """Rectangular matrices of full numerical rank with a *binding* cap: tall and wide, both `orth_center_right`
+    values, `max_rank` in 1..min(shape). The Gram matrix that `split_matrix` diagonalises is the larger one for
+    (tall, ocr=True) and (wide, ocr=False): there `d.shape[0] > min(m.shape)` and the kept rank must still be
+    `max_rank` exactly."""
+    import torch
+    big, small = rng.randint(3, 40), 0
+    small = rng.randint(1, max(1, big // 2))
+    tall = rng.random() < 0.5
+    r, c = (big, small) if tall else (small, big)
+    g = torch.Generator().manual_seed(rng.randrange(2 ** 31))
+    k = small
+    mode = rng.choice(["flat", "mild", "gauss"])
+    if mode == "gauss":
+        m = torch.randn(r, c, dtype=torch.complex128, generator=g)
+    else:
+        u, _ = torch.linalg.qr(torch.randn(r, k, dtype=torch.complex128, generator=g))
+        v, _ = torch.linalg.qr(torch.randn(c, k, dtype=torch.complex128, generator=g))
+        sv = [1.0] * k if mode == "flat" else [rng.uniform(0.3, 1.0) for _ in range(k)]
+        m = (u * torch.tensor(sv, dtype=torch.complex128)) @ v.mH
+    return dict(m=m, eps=10 ** rng.uniform(-10, -4), max_rank=rng.randint(1, k), ocr=rng.random() < 0.5,
+                pn=rng.random() < 0.3, mode=f"rect-{'tall' if tall else 'wide'}-{mode}", seed=None)
+
+
 class EighTape:
     """Records every `torch.linalg.eigh` call made while active (input, d, q)."""
 
@@ -335,6 +368,8 @@ class EighTape:
         self._orig = torch.linalg.eigh
 
     def __call__(self, a, *args, **kw):
+        if a.shape[-1] > EIGH_LIMIT:
+            raise Blowup(f"eigh of a {tuple(a.shape)} Gram matrix (limit {EIGH_LIMIT})")
         out = self._orig(a, *args, **kw)
         self.calls.append((a.detach().clone(), out[0].detach().clone(), out[1].detach().clone()))
         return out
@@ -369,12 +404,13 @@ def seq_sum(xs) -> float:
     return acc
 
 
-def split_correspondence(rep: Report, rng, n: int, batch=None) -> None:
+def split_correspondence(rep: Report, rng, n: int, batch=None, rng_rect=None, n_rect: int = 0) -> None:
     import torch
     import emu_mps.utils as U
     lines, outs, metas = [], [], []
-    for _ in range(n):
-        case = gen_split_case(rng)
+    for i in range(n_rect + n):
+        # the rectangular binding-cap cases come first (own random stream: the other parts keep their inputs)
+        case = gen_rect_split_case(rng_rect) if i < n_rect else gen_split_case(rng)
         m = case["m"]
         tape = EighTape()
         data = {"kind": "split", "m_re": m.real.tolist(), "m_im": m.imag.tolist(), "eps": case["eps"],
@@ -401,6 +437,8 @@ def split_correspondence(rep: Report, rng, n: int, batch=None) -> None:
         metas.append(data)
         rep.hist("split_mode", case["mode"])
         rep.hist("split_kept_vs_cap", "kept==cap" if left.shape[1] == case["max_rank"] else "kept<cap")
+        if case["mode"].startswith("rect"):
+            rep.hist("split_rect", f"{case['mode'].split('-')[1]}-ocr{int(case['ocr'])}")
     def judge(mo):
         bad = 0
         for l, m_, o, data in zip(lines, mo, outs, metas):
@@ -561,7 +599,13 @@ def run_history(case, rep=None):
     steps = []
     degenerate = False
     done_ops = []
+    import time as _time
+    t_case, stopped = _time.time(), None
     for op in case["ops"]:
+        if _time.time() - t_case > CASE_BUDGET_S:
+            stopped = "case-budget"          # (counted by the caller; the operations run so far are judged)
+            break
+        premise_broken = False               # a bond above the cap / inconsistent shapes: stop, later ops assume them
         o, k = op[0], (int(op[1:]) if len(op) > 1 else None)
         if o == "m":
             # `sample` presumes a normalised state; torch.multinomial rejects weights that vanish or underflow.
@@ -632,6 +676,11 @@ def run_history(case, rep=None):
                     cur.entanglement_entropy(k)
         except AssertionError:
             raised = "assert"
+        except Blowup as e:
+            fails.append((f"op {op!r}: tensors outgrew every size a capped state can reach ({e}); bonds before the operation "
+                          f"{before_bonds}, max_bond_dim={before_cap}", len(done_ops)))
+            stopped = "blowup"
+            break
         except Exception as e:
             fails.append((f"op {op!r} raised {type(e).__name__}: {e}", len(done_ops)))
             break
@@ -645,10 +694,12 @@ def run_history(case, rep=None):
         fsh = [tuple(f.shape) for f in cur.factors]
         if fsh[0][0] != 1 or fsh[-1][2] != 1 or any(fsh[i][2] != fsh[i + 1][0] for i in range(n - 1)):
             fails.append((f"after {op!r}: inconsistent bond dimensions {fsh}", len(done_ops)))
+            premise_broken = True
         # bonds: truncating operations honour the cap they were given; the others never grow a bond
         if o in "taz":
             if max(st["bonds"]) > before_cap:
                 fails.append((f"after {op!r}: bond dimensions {st['bonds']} exceed max_bond_dim={before_cap}", len(done_ops)))
+                premise_broken = True
             if o == "z" and (cur.max_bond_dim != before_cap or cur.precision != before_prec):
                 # `MPO.apply_to` returns `MPS(factors, orthogonality_center=0, eigenstates=…)`: precision and
                 # max_bond_dim fall back to the defaults (1e-5, 1024). Recorded (see notes/cutoff.md); the
@@ -657,6 +708,7 @@ def run_history(case, rep=None):
                 cur.precision, cur.max_bond_dim = before_prec, before_cap
         elif any(b > a for a, b in zip(before_bonds, st["bonds"])):
             fails.append((f"after {op!r}: a non-truncating operation grew a bond {before_bonds} -> {st['bonds']}", len(done_ops)))
+            premise_broken = True
         # norm = norm of the centre tensor (only claimed when a centre is declared)
         c = cur.orthogonality_center
         if c is not None and 0 <= c < n:
@@ -702,7 +754,10 @@ def run_history(case, rep=None):
                                   f"{bound * bound!r} (||psi||^2 = {n2!r}): the sweep did not run on a canonical form", len(done_ops)))
             st["sweep"] = len(sweeps) - 1
         steps.append(st)
-    return dict(init=init, steps=steps, fails=fails, sweeps=sweeps, ops=done_ops)
+        if premise_broken:
+            stopped = "premise-broken"
+            break
+    return dict(init=init, steps=steps, fails=fails, sweeps=sweeps, ops=done_ops, stopped=stopped)
 
 
 def _case_ser(case):
@@ -766,6 +821,8 @@ def history_correspondence(rep: Report, rng, n: int, tier: str, batch=None) -> N
         results.append(res)
         for msg, upto in res["fails"]:
             rep.fail(msg, {"kind": "history", **_case_ser(case), "upto": upto})
+        if res.get("stopped"):
+            rep.hist("histories_stopped", res["stopped"])
         lines.append(f"canon.run {case['n']} {res['init']} " + " ".join(res["ops"]) if res["ops"] else f"canon.run {case['n']} {res['init']}")
         for sw in res["sweeps"]:
             size = sum(len(d) for d in sw["ds"])
@@ -1122,13 +1179,18 @@ def run_bridge_history(case, rep=None):
 
     toks, centres, done = [], [], []
     degenerate = False
+    import time as _time
+    t_case = _time.time()
+    eigh_guard = EighTape()                  # (only its size guard is used here)
     for op in case["ops"]:
+        if _time.time() - t_case > CASE_BUDGET_S:
+            break
         o, k = op[0], (int(op[1:]) if len(op) > 1 else None)
         if o == "m":
             nrm2 = float(cur.inner(cur).real)
             if degenerate or not (1e-12 < nrm2 < 1e12):
                 continue
-        del orth_calls[:], splits[:]
+        del orth_calls[:], splits[:], eigh_guard.calls[:]
         q0 = len(qr.calls)
         before = [f.detach().clone() for f in cur.factors]
         before_cap, before_prec = cur.max_bond_dim, cur.precision
@@ -1136,7 +1198,7 @@ def run_bridge_history(case, rep=None):
         aux = {}
         try:
             with mock.patch("torch.linalg.qr", qr), mock.patch.object(MPS, "orthogonalize", orth_rec), \
-                    mock.patch.object(U, "split_matrix", split_rec):
+                    mock.patch.object(U, "split_matrix", split_rec), mock.patch("torch.linalg.eigh", eigh_guard):
                 if o == "o":
                     cur.orthogonalize(k)
                 elif o == "t":
@@ -1188,8 +1250,14 @@ def run_bridge_history(case, rep=None):
             raised = True
             if o not in "opy":
                 return dict(error=f"op {op!r} raised AssertionError", upto=len(done))
+        except Blowup as e:
+            return dict(error=f"op {op!r}: tensors outgrew every size a capped state can reach ({e})", upto=len(done))
         except Exception as e:
             return dict(error=f"op {op!r} raised {type(e).__name__}: {e}", upto=len(done))
+        if o in "taz" and not raised and max(f.shape[2] for f in cur.factors) > before_cap:
+            # the property itself (also judged in part (b)); the history stops here: later operations assume the cap
+            return dict(error=f"after {op!r}: bond dimensions {[f.shape[2] for f in cur.factors]} exceed max_bond_dim={before_cap}",
+                        upto=len(done) + 1)
         # the operation with the kernel answers recorded while it ran. Missing `orthogonalize` calls are padded with
         # empty tapes: a model that needs them then fails, which shows up as a correspondence disagreement.
         ot = pad([] if raised else orth_calls, 2)
@@ -1286,7 +1354,9 @@ def check(rep: Report, tier: str, seed: int) -> None:
     rep.rule = ("(a) lists for _determine_cutoff_index: prefix sums exactly on eps^2 (dyadic lattices), tiny +- eigenvalues "
                 "from rank-deficient Gram matrices, all-below-threshold, empty/one element, inf/nan, eps<=0/nan, eps^2 "
                 "under/overflow, lists up to 6e3 (quick) / 1e5 (thorough) elements — bit-exact index; split_matrix on matrices "
-                "with designed spectra, max_rank in {-1,0,1..1024}, both orth_center_right, preserve_norm. (b) histories: 2-10 "
+                "with designed spectra, max_rank in {-1,0,1..1024}, both orth_center_right, preserve_norm, plus rectangular (tall and "
+                "wide, aspect >= 2) full-rank matrices with max_rank uniform in 1..min(shape) so that the cap binds while the Gram "
+                "matrix is the larger one. (b) histories: 2-10 "
                 "sites, qubits/qutrits, bond<=32, precision 1e-12..1e-2, max_bond_dim 1..64, init in {fresh None, MPS.make, "
                 "arbitrary flagged state incl. false claims}, ops orthogonalize/truncate/+/scalar*/apply/apply_to/expect_batch/"
                 "norm/inner/get_correlation_matrix/sample/entanglement_entropy incl. out-of-range sites. (c) real TDVP runs "
@@ -1337,7 +1407,8 @@ def check(rep: Report, tier: str, seed: int) -> None:
         rep.extra["stage_s"][name] = round(t[-1] - t[-2], 1)
     cutoff_correspondence(rep, rng, 450 if quick else 6000, 6000 if quick else 100000, batch)
     lap("cutoff")
-    split_correspondence(rep, rng, 120 if quick else 1500, batch)
+    split_correspondence(rep, rng, 120 if quick else 1500, batch, rng_rect=seeded(seed * 32452843 + 10),
+                         n_rect=80 if quick else 1000)
     lap("split")
     history_correspondence(rep, rng, 200 if quick else 1500, tier, batch)
     lap("histories")
@@ -1347,7 +1418,8 @@ def check(rep: Report, tier: str, seed: int) -> None:
     bridge_trunc_exact(rep, rng_b, 60 if quick else 600, batch)
     bridge_histories(rep, rng_b, 120 if quick else 1200, tier, batch)
     lap("bridge")
-    th.join()
+    while th.is_alive():            # never block without a timeout in the main thread: SIGALRM must stay deliverable
+        th.join(timeout=0.5)
     if "exc" in box:
         raise box["exc"]
     rep.obligations = rep.obligations + [o for o in side.obligations if o not in rep.obligations]
@@ -1437,7 +1509,7 @@ def replay(rep: Report, path: str) -> int:
             if not msgs and res["steps"]:
                 # re-judge against the model
                 line = f"canon.run {case['n']} {res['init']} " + " ".join(res["ops"])
-                mo = Driver().batch([line])[0]
+                mo = Driver().batch([line], timeout=DRIVER_TIMEOUT_S)[0]
                 msgs = [m for k, m in judge_history(Report("C10", "replay", 0), case, res, mo.split(",")) if k == "prop"]
             msg = msgs[0] if msgs else None
         elif d.get("kind") == "bridge_hist":
@@ -1446,7 +1518,7 @@ def replay(rep: Report, path: str) -> int:
             res = run_bridge_history(case, r2)
             msg = res.get("error") or (r2.failing[0]["what"] if r2.failing else None)
             if not msg and res.get("ops"):
-                msg = judge_bridge_history(Driver().batch([res["line"]])[0], res)
+                msg = judge_bridge_history(Driver().batch([res["line"]], timeout=DRIVER_TIMEOUT_S)[0], res)
         elif d.get("kind") == "tdvp":
             r2 = Report("C10", "replay", 0)
 
